@@ -741,6 +741,12 @@ func (te *TEnv) call(x *ECall) TV {
 			vc.declareRaw("arr32!Int", "(declare-fun arr32!Int ((Array Int Int) Int) (Array Int Int))")
 			return TV{t: "(arr32!Int " + vc.sliceContent(te.st, a.t, "Int") + " (soff " + a.t + "))", sort: "(Array Int Int)"}
 		}
+	case "strbytes":
+		// strbytes(s): abstract byte value of []byte(s)
+		if need(1) {
+			a := arg(0)
+			return TV{t: "(bytesval (str2bytes " + a.t + ") 0 (str.len " + a.t + "))", sort: "BytesV"}
+		}
 	case "bytesof":
 		// bytesof(s): abstract value of a []byte slice
 		if need(1) {
